@@ -159,6 +159,9 @@ EXTRA5 = {
  "C15": "Histories include transactions that stay open across other commits.",
  "C17": "A third root spelling: '<base>/hop/../root' with hop a symlink to a sibling directory (create-or-open must create nothing anywhere).",
 }
+EXTRA5["C10"] = "A crash leftover with the SAME number as the latest committed version and older than it is judged on its own (the scan's tie-break), not under the recorded known finding."
+EXTRA5["C12"] = "Read APIs include a caller that collects all batches of scan_batches first and reads them afterwards."
+EXTRA5["C13"] = "One-transaction tables may lose one file to delete_files (manifest rewritten, statistics carried over) before the filtered read."
 for _k, _v in EXTRA5.items():
     EXTRA4[_k] = (EXTRA4.get(_k, "") + " " + _v).strip()
 for _k, _v in EXTRA2.items():
